@@ -68,7 +68,9 @@ theorem leaf_roundtrip (s : SchemaD) (nm : String) (v : J) (h : LeafOK s nm v) (
     · exact ⟨.bool b, by simp [valueLit, hnb', ht, hk, customLit], by simp [valueFromAst, hnb', liveEnv, ht, hk, scalarLiteral, pure], by simp⟩
     · by_cases hx : isIntText x = true
       · exact ⟨.int x (x ++ ".0"), by simp [valueLit, hnb', ht, hk, customLit, hx], by simp [valueFromAst, hnb', liveEnv, ht, hk, scalarLiteral, pure], by simp⟩
-      · exact ⟨.str x, by simp [valueLit, hnb', ht, hk, customLit, hx], by simp [valueFromAst, hnb', liveEnv, ht, hk, scalarLiteral, pure], by simp⟩
+      · by_cases hfr : isFloatRepr x = true
+        · exact ⟨.float x x, by simp [valueLit, hnb', ht, hk, customLit, hx, hfr], by simp [valueFromAst, hnb', liveEnv, ht, hk, scalarLiteral, pure], by simp⟩
+        · exact ⟨.str x, by simp [valueLit, hnb', ht, hk, customLit, hx, hfr], by simp [valueFromAst, hnb', liveEnv, ht, hk, scalarLiteral, pure], by simp⟩
   · have hnb' : nm ∉ builtinScalars := by simpa using hnb
     refine ⟨.enum ev.name, ?_, ?_, by simp⟩
     · cases v <;> simp_all [valueLit]
